@@ -48,7 +48,7 @@ func (c10) Batches(tier string, seed uint64) []core.Batch {
 
 // every exported field of every typed struct must have been compared.
 func (c10) Mandatory(tier string) []string {
-	m := []string{"layout:folded-comma-list", "layout:single-line-comma-list", "layout:folded-dependency", "layout:checksum-block", "layout:blanks-before-separator", "size:>=2^31", "size:int-field>=2^31", "entry:ParseDscFile-relative-path", "entry:ParseChangesFile", "entry:ParseControlFile", "entry:ParseDscFile-via-symlink", "entry:ParseChangesFile-via-symlink", "entry:ParseControlFile-via-symlink", "reader:bufio-smaller-than-4096", "accessor:Maintainers", "accessor:HasArchAll:true",
+	m := []string{"layout:folded-comma-list", "layout:single-line-comma-list", "layout:folded-dependency", "layout:checksum-block", "layout:blanks-before-separator", "size:>=2^31", "size:int-field>=2^31", "entry:ParseDscFile-relative-path", "entry:ParseChangesFile", "entry:ParseControlFile", "entry:ParseDscFile-via-symlink", "entry:ParseChangesFile-via-symlink", "entry:ParseControlFile-via-symlink", "reader:bufio-smaller-than-4096", "accessor:Maintainers", "accessor:value-unchanged-by-accessors", "accessor:HasArchAll:true",
 		"accessor:HasArchAll:false", "accessor:AbsFiles", "accessor:DebianSource:found", "accessor:DebianSource:none", "accessor:GetDSC", "accessor:SourcePackage:binnmu",
 		"accessor:SourcePackage:default", "accessor:GetDepends", "accessor:GetBuildDepends", "accessor:Checksums:sha256", "accessor:Checksums:sha512", "accessor:Checksums:none",
 		"accessor:SourceName", "accessor:ByHashPath", "arch:two-part", "arch:all", "arch:wildcard"}
@@ -905,6 +905,13 @@ func (p c10) dsc(c *core.C, t *core.T, r *core.Rand) {
 			c.Failf("DSC.DebianSource() = %q, %v; want %q", ds, err, wantDS)
 		}
 	}
+	// accessors only read: after all of them the decoded value is still what the document says, and they answer
+	// the same when asked again
+	compareStruct(c, "DSC (after its accessors were called)", *got, d.want, text)
+	if gm := got.Maintainers(); !eqLines(gm, wantM) {
+		c.Failf("DSC.Maintainers() = %q on the second call, the document says %q\ndocument: %q", gm, wantM, text)
+	}
+	c.Cover("accessor:value-unchanged-by-accessors")
 }
 
 func (p c10) changes(c *core.C, t *core.T, r *core.Rand) {
@@ -1049,6 +1056,7 @@ func (p c10) changes(c *core.C, t *core.T, r *core.Rand) {
 	} else if gd, err := got.GetDSC(); err == nil {
 		c.Failf("Changes.GetDSC() = %+v for an upload without a .dsc", gd)
 	}
+	compareStruct(c, "Changes (after its accessors were called)", *got, d.want, text)
 }
 
 func (p c10) control(c *core.C, r *core.Rand) {
@@ -1175,6 +1183,10 @@ func (p c10) control(c *core.C, r *core.Rand) {
 		c.Failf("SourceParagraph.Maintainers() = %q, the document says %q\ndocument: %q", gm, wantM, text)
 	}
 	c.Cover("accessor:Maintainers")
+	compareStruct(c, "SourceParagraph (after its accessors were called)", got.Source, srcDoc.want, text)
+	if gm := got.Source.Maintainers(); !eqLines(gm, wantM) {
+		c.Failf("SourceParagraph.Maintainers() = %q on the second call, the document says %q\ndocument: %q", gm, wantM, text)
+	}
 	coverLayout(c, srcDoc)
 	c.Nontrivial()
 }
